@@ -371,6 +371,19 @@ func (b *wfBuilder) chooseType(i int) {
 		pool = shapesAny
 	}
 	shape := b.pick(pool, "shape")
+	// a defined type whose underlying type is the (unnamed) type of the node's
+	// first dependency: the dependency's value is assignable to it
+	if nd.kind == "func" && len(nd.deps) > 0 && len(nd.binders) == 0 && !nd.needStruct && b.pct(8, "defofdep") {
+		if dt := b.nodes[nd.deps[0]].t; dt != nil {
+			switch dt.K {
+			case "slice", "array", "map", "chan", "func", "ptr", "structlit":
+				nd.shape = "defofdep"
+				nd.base = b.addDecl(Decl{Name: fmt.Sprintf("T%d", i), Form: "def", Under: dt})
+				nd.t = Named(nd.base)
+				return
+			}
+		}
+	}
 	if shape == "basic" {
 		var free []string
 		for _, bn := range basicPool {
